@@ -146,9 +146,12 @@ func runC04(c *Ctx) {
 	os.MkdirAll(dir, 0o755)
 	subEvery := 40
 	nre := c.N(2000, 40000)
-	for ii := 0; ii < n+nre; ii++ {
+	ndis := c.N(4000, 80000)
+	for ii := 0; ii < n+nre+ndis; ii++ {
 		stream, i := "journal", ii
-		if ii >= n {
+		if ii >= n+nre {
+			stream, i = "disorder", ii-n-nre
+		} else if ii >= n {
 			stream, i = "reopen", ii-n
 		}
 		if !c.Want(stream, i) {
@@ -166,8 +169,25 @@ func runC04(c *Ctx) {
 			if r.Chance(1, 6) && WidenDates(r, j) {
 				tags = append(tags, "wide-dates")
 			}
-		} else {
+		} else if stream == "reopen" {
 			j, tags = c04ReopenJournal(r)
+		} else {
+			// the file order is not the date order: the verdict is a function of the set of directives per date (and of the
+			// file order within one date), never of where in the file a date first appears
+			switch r.Intn(4) {
+			case 0:
+				j, tags = c04ReopenJournal(r)
+			case 1:
+				j, tags = GenJournal(r, JGenOpts{MaxAccounts: r.Range(2, 5), MaxDays: r.Range(2, 6), Mutate: true, Prices: r.Chance(1, 3), Valuation: "CHF", Accruals: r.Chance(1, 4), BaseDay: 737000 + r.Intn(2000), SpanDays: r.Range(1, 12)})
+			default:
+				j, tags = c04TimelineJournal(r)
+			}
+			tags = append(tags, "disorder:"+c04Disorder(r, j))
+			if c04Chronological(j) {
+				tags = append(tags, "file-chronological")
+			} else {
+				tags = append(tags, "file-out-of-order")
+			}
 		}
 		text, offsets := j.Text()
 		path := filepath.Join(dir, fmt.Sprintf("j%d.knut", i%64))
@@ -186,7 +206,7 @@ func runC04(c *Ctx) {
 		}
 		mut := "none"
 		for _, t := range tags {
-			if strings.HasPrefix(t, "mutated:") {
+			if strings.HasPrefix(t, "mutated:") || strings.HasPrefix(t, "disorder:") {
 				mut = t
 			}
 		}
@@ -263,6 +283,20 @@ func runC04(c *Ctx) {
 					}
 				}
 				c.Monitor(stream, i, "cli_verdict_"+cmd, in, okCLI, detail)
+				// the verdict of the command line against the specification itself (not only against the in-process verdict)
+				if cmd == "check" && (verdict == "ok" || verdict == "error") && (code == 0 || code == 1) {
+					cv := "ok"
+					if code != 0 {
+						cv = "error"
+					}
+					bt.Add(func(mon string) {
+						if mon == "ok" || strings.HasPrefix(mon, "known ") {
+							c.Monitored++
+							return
+						}
+						c.Monitor(stream, i, "cli_accept_iff_wellformed", in, false, fmt.Sprintf("knut check: exit %d, stderr %q => %s", code, clip(stderr), mon))
+					}, "c04mon", wire, cv, "-")
+				}
 			}
 			// a rejected journal is rejected whatever part of it the report shows: a window that ends before the offending
 			// directive, a valuation, an interval (seeded change C04-e cut the journal at --to before the checker ran when -v is given)
@@ -366,4 +400,239 @@ func c04ReopenJournal(r *RNG) (*Journal, []string) {
 	}
 	sort.Strings(tags)
 	return j, tags
+}
+
+// c04TimelineJournal writes the lives of one to three asset/liability accounts as a sparse timeline: one event per step
+// (open, booking, assertion, close, price, now and then an invalid one), most of them on a date of their own, so that many
+// dates hold nothing but an open, an assertion or a close and the verdict depends on the order of almost any two dates.
+func c04TimelineJournal(r *RNG) (*Journal, []string) {
+	accs := []string{"Assets:A", "Liabilities:L", "Assets:A:Sub", "Assets:B"}[:r.Range(1, 4)]
+	coms := []string{"X", "Y"}[:r.Range(1, 2)]
+	j := &Journal{}
+	day := 737000 + r.Intn(3000)
+	j.Dirs = append(j.Dirs, JDir{Kind: 'o', Date: day, Account: "Equity:E"})
+	open := map[string]bool{}
+	pos := map[[2]string]decimal.Decimal{}
+	tagset := map[string]bool{}
+	steps := r.Range(3, 18)
+	txDensity := Pick(r, []int{1, 2, 4}) // out of 6
+	book := func(a string) {
+		c := Pick(r, coms)
+		key := [2]string{a, c}
+		var q decimal.Decimal
+		if !pos[key].IsZero() && r.Chance(1, 2) {
+			q = pos[key].Neg()
+		} else {
+			q = decimal.RequireFromString(Pick(r, []string{"1", "2", "-1", "0.5", "10", "0"}))
+		}
+		pos[key] = pos[key].Add(q)
+		j.Dirs = append(j.Dirs, JDir{Kind: 't', Date: day, Desc: "move", Bookings: []JBook{{Credit: "Equity:E", Debit: a, Qty: q.String(), Com: c}}})
+	}
+	for s := 0; s < steps; s++ {
+		if !r.Chance(1, 5) {
+			day += r.Range(1, 4)
+		}
+		a := Pick(r, accs)
+		if !open[a] {
+			switch {
+			case r.Chance(1, 12):
+				j.Dirs = append(j.Dirs, JDir{Kind: 't', Date: day, Desc: "ghost", Bookings: []JBook{{Credit: "Equity:E", Debit: a, Qty: "1", Com: Pick(r, coms)}}})
+				tagset["booking-on-closed"] = true
+			case r.Chance(1, 12):
+				j.Dirs = append(j.Dirs, JDir{Kind: 'a', Date: day, Balances: []JBal{{Account: a, Qty: "0", Com: Pick(r, coms)}}})
+				tagset["assertion-on-closed"] = true
+			default:
+				j.Dirs = append(j.Dirs, JDir{Kind: 'o', Date: day, Account: a})
+				open[a] = true
+			}
+			continue
+		}
+		zero := true
+		for _, c := range coms {
+			if !pos[[2]string{a, c}].IsZero() {
+				zero = false
+			}
+		}
+		switch x := r.Intn(6); {
+		case x < txDensity:
+			book(a)
+		case r.Chance(1, 10):
+			j.Dirs = append(j.Dirs, JDir{Kind: 'p', Date: day, Com: Pick(r, coms), Price: "1.5", Target: "CHF"})
+		case r.Chance(1, 2):
+			c := Pick(r, coms)
+			q := pos[[2]string{a, c}]
+			if r.Chance(1, 12) {
+				q = q.Add(decimal.New(1, 0))
+				tagset["wrong-assertion"] = true
+			}
+			j.Dirs = append(j.Dirs, JDir{Kind: 'a', Date: day, Balances: []JBal{{Account: a, Qty: q.String(), Com: c}}})
+		case zero || r.Chance(1, 8):
+			j.Dirs = append(j.Dirs, JDir{Kind: 'c', Date: day, Account: a})
+			if !zero {
+				tagset["close-with-position"] = true
+			}
+			open[a] = false
+			for _, c := range coms {
+				delete(pos, [2]string{a, c})
+			}
+		default:
+			book(a)
+		}
+	}
+	tags := []string{"timeline"}
+	for t := range tagset {
+		tags = append(tags, t)
+	}
+	sort.Strings(tags)
+	return j, tags
+}
+
+// c04Chronological: the dates of the directives never decrease along the file.
+func c04Chronological(j *Journal) bool {
+	for i := 1; i < len(j.Dirs); i++ {
+		if j.Dirs[i].Date < j.Dirs[i-1].Date {
+			return false
+		}
+	}
+	return true
+}
+
+// c04Disorder rearranges the file order of the directives (never their dates): a few displaced directives or days in an
+// otherwise chronological file, neighbouring days swapped, whole days permuted, everything shuffled, the file grouped by
+// kind of directive (accounts file, transactions file, assertions file), several chronological files concatenated, a
+// chronological head with a shuffled tail, the file reversed.  Returns the name of the rearrangement.
+func c04Disorder(r *RNG, j *Journal) string {
+	n := len(j.Dirs)
+	if n < 2 {
+		return "none"
+	}
+	chrono := func() { sort.SliceStable(j.Dirs, func(a, b int) bool { return j.Dirs[a].Date < j.Dirs[b].Date }) }
+	days := func() [][]JDir { // whole days, ascending
+		chrono()
+		var res [][]JDir
+		for _, d := range j.Dirs {
+			if len(res) > 0 && res[len(res)-1][0].Date == d.Date {
+				res[len(res)-1] = append(res[len(res)-1], d)
+			} else {
+				res = append(res, []JDir{d})
+			}
+		}
+		return res
+	}
+	flat := func(bs [][]JDir) {
+		j.Dirs = j.Dirs[:0:0]
+		for _, b := range bs {
+			j.Dirs = append(j.Dirs, b...)
+		}
+	}
+	shuffle := func(lo, hi int, swap func(a, b int)) {
+		for k := hi - 1; k > lo; k-- {
+			swap(k, lo+r.Intn(k-lo+1))
+		}
+	}
+	move := func(from, to int) { // directive at from ends up at index to
+		d := j.Dirs[from]
+		rest := append(append([]JDir{}, j.Dirs[:from]...), j.Dirs[from+1:]...)
+		j.Dirs = append(append(append([]JDir{}, rest[:to]...), d), rest[to:]...)
+	}
+	switch r.Intn(12) {
+	case 0:
+		if r.Bool() {
+			chrono()
+		}
+		return "as-generated"
+	case 1: // one to three directives move anywhere
+		chrono()
+		for k := r.Range(1, 3); k > 0; k-- {
+			move(r.Intn(n), r.Intn(n))
+		}
+		return "directives-displaced"
+	case 2: // one to three directives move by one to three places
+		chrono()
+		for k := r.Range(1, 3); k > 0; k-- {
+			from := r.Intn(n)
+			to := from + Pick(r, []int{-3, -2, -1, 1, 2, 3})
+			move(from, max(0, min(n-1, to)))
+		}
+		return "directives-nudged"
+	case 3: // two neighbouring days change places (once or twice)
+		bs := days()
+		for k := r.Range(1, 2); k > 0 && len(bs) > 1; k-- {
+			i := r.Intn(len(bs) - 1)
+			bs[i], bs[i+1] = bs[i+1], bs[i]
+		}
+		flat(bs)
+		return "adjacent-days-swapped"
+	case 4: // one whole day moves anywhere
+		bs := days()
+		if len(bs) > 1 {
+			from, to := r.Intn(len(bs)), r.Intn(len(bs))
+			b := bs[from]
+			rest := append(append([][]JDir{}, bs[:from]...), bs[from+1:]...)
+			bs = append(append(append([][]JDir{}, rest[:to]...), b), rest[to:]...)
+		}
+		flat(bs)
+		return "day-displaced"
+	case 5: // whole days permuted
+		bs := days()
+		shuffle(0, len(bs), func(a, b int) { bs[a], bs[b] = bs[b], bs[a] })
+		flat(bs)
+		return "days-permuted"
+	case 6: // chronological head, permuted tail of days
+		bs := days()
+		if len(bs) > 1 {
+			shuffle(r.Intn(len(bs)-1), len(bs), func(a, b int) { bs[a], bs[b] = bs[b], bs[a] })
+		}
+		flat(bs)
+		return "tail-days-permuted"
+	case 7: // every directive anywhere
+		shuffle(0, n, func(a, b int) { j.Dirs[a], j.Dirs[b] = j.Dirs[b], j.Dirs[a] })
+		return "directives-shuffled"
+	case 8: // one part of the file per kind of directive, each part chronological
+		chrono()
+		kinds := []byte{'o', 'p', 't', 'a', 'c'}
+		shuffle(0, len(kinds), func(a, b int) { kinds[a], kinds[b] = kinds[b], kinds[a] })
+		merged := r.Intn(3) // 0: five parts; 1, 2: the first two / three kinds share a part
+		rank := map[byte]int{}
+		for k, c := range kinds {
+			rank[c] = max(0, k-merged)
+		}
+		sort.SliceStable(j.Dirs, func(a, b int) bool { return rank[j.Dirs[a].Kind] < rank[j.Dirs[b].Kind] })
+		return "grouped-by-kind"
+	case 9: // two or three chronological files, one after the other
+		chrono()
+		parts := r.Range(2, 3)
+		part := make([]int, n)
+		for k := range part {
+			part[k] = r.Intn(parts)
+		}
+		idx := make([]int, n)
+		for k := range idx {
+			idx[k] = k
+		}
+		sort.SliceStable(idx, func(a, b int) bool { return part[idx[a]] < part[idx[b]] })
+		old := append([]JDir{}, j.Dirs...)
+		for k, o := range idx {
+			j.Dirs[k] = old[o]
+		}
+		return "files-concatenated"
+	case 10: // the last directives of the file (mostly the latest dates) come in any order
+		chrono()
+		shuffle(max(0, n-r.Range(2, 5)), n, func(a, b int) { j.Dirs[a], j.Dirs[b] = j.Dirs[b], j.Dirs[a] })
+		return "tail-directives-shuffled"
+	default: // latest first
+		if r.Bool() {
+			bs := days()
+			for a, b := 0, len(bs)-1; a < b; a, b = a+1, b-1 {
+				bs[a], bs[b] = bs[b], bs[a]
+			}
+			flat(bs)
+			return "days-reversed"
+		}
+		chrono()
+		for a, b := 0, n-1; a < b; a, b = a+1, b-1 {
+			j.Dirs[a], j.Dirs[b] = j.Dirs[b], j.Dirs[a]
+		}
+		return "directives-reversed"
+	}
 }
